@@ -27,4 +27,24 @@ HARNESSES = [
     H('fe_cmp', 'field.c', 'h_fe_cmp', route='A', unwind=36, timeout=300, cbmc=['--object-bits', '10'], variants=[{'MAG': 1}, {'MAG': 8}],
       functions=['secp256k1_fe_cmp_var', 'secp256k1_fe_equal', 'secp256k1_fe_normalize', 'secp256k1_fe_normalize_var', 'secp256k1_fe_get_b32'],
       bounds='all pairs of limb patterns of magnitude <= 1 (fe_equal, cmp_var) and <= 8 (cmp_var after normalisation)'),
+    # ---- signature object encoding layer (sig.c) ----
+    H('sig_compact', 'sig.c', 'h_sig_compact', route='A', unwind=70, timeout=300, cbmc=['--object-bits', '10'],
+      functions=['secp256k1_ecdsa_signature_parse_compact', 'secp256k1_ecdsa_signature_serialize_compact', 'secp256k1_scalar_set_b32', 'secp256k1_scalar_get_b32'],
+      bounds='all 2^512 64-byte inputs'),
+    H('sig_normalize', 'sig.c', 'h_sig_normalize', route='A', unwind=70, timeout=300, cbmc=['--object-bits', '10'],
+      functions=['secp256k1_ecdsa_signature_normalize', 'secp256k1_scalar_is_high', 'secp256k1_scalar_negate', 'secp256k1_ecdsa_signature_parse_compact', 'secp256k1_ecdsa_signature_serialize_compact'],
+      bounds='all r, s < n (2 x 256 bits)'),
+    H('seckey_verify', 'sig.c', 'h_seckey_verify', route='A', unwind=36, timeout=300, cbmc=['--object-bits', '10'],
+      functions=['secp256k1_ec_seckey_verify', 'secp256k1_scalar_set_b32_seckey'], bounds='all 2^256 keys'),
+    H('der_parse', 'sig.c', 'h_der_parse', route='A', unwind=82, unwindset='secp256k1_der_read_len.0:10,ref_len.0:10', timeout=300, cbmc=['--object-bits', '10'], checks=['--pointer-check', '--bounds-check'],
+      variants=[{'LEN': l} for l in (0, 1, 2, 7, 8, 9, 10, 11, 12)], tvariants=[{'LEN': l} for l in list(range(0, 20)) + [38, 39, 40]],
+      functions=['secp256k1_ecdsa_signature_parse_der', 'secp256k1_ecdsa_sig_parse', 'secp256k1_der_read_len', 'secp256k1_der_parse_integer', 'secp256k1_ecdsa_signature_serialize_der', 'secp256k1_ecdsa_sig_serialize', 'secp256k1_ecdsa_signature_serialize_compact'],
+      bounds='every byte string of each concrete length 0,1,2,7..12 (thorough: 0..19, 38..40), all bytes symbolic; pointer/bounds checks enabled on the exact-size input buffer'),
+    H('der_parse_long', 'sig.c', 'h_der_parse', route='A', unwind=82, unwindset='secp256k1_der_read_len.0:10,ref_len.0:10', timeout=600, cbmc=['--object-bits', '10'], defines={'NO_REPARSE': 1},
+      variants=[{'LEN': l} for l in (70, 71, 72, 73)], tvariants=[{'LEN': l} for l in (68, 69, 70, 71, 72, 73, 74)],
+      functions=['secp256k1_ecdsa_signature_parse_der', 'secp256k1_ecdsa_sig_parse', 'secp256k1_der_read_len', 'secp256k1_der_parse_integer', 'secp256k1_ecdsa_signature_serialize_der'],
+      bounds='every byte string of each concrete length 70..73 (thorough 68..74), all bytes symbolic'),
+    H('der_roundtrip', 'sig.c', 'h_der_roundtrip', route='A', tier='thorough', unwind=82, unwindset='secp256k1_der_read_len.0:10,ref_len.0:10', timeout=1500, cbmc=['--object-bits', '10'],
+      functions=['secp256k1_ecdsa_signature_serialize_der', 'secp256k1_ecdsa_sig_serialize', 'secp256k1_ecdsa_signature_parse_der', 'secp256k1_ecdsa_signature_parse_compact'],
+      bounds='all r, s < n (2 x 256 bits); output length symbolic 8..72'),
 ]
